@@ -82,6 +82,12 @@ func (v *vAFS) Glob(pattern string) ([]string, error) {
 	return out, nil
 }
 
+func vAbs(p string) (string, error)          { return p, nil }
+func vNoSync(string)                        {}
+func vMkdirAll(string) error                { return nil }
+func vCompress(src, dst []byte, _ int) []byte { return append(dst[:0], src...) }
+func vDecompress(src []byte) ([]byte, error) { return src, nil }
+
 // ---- JSON/zstd are replaced by an identity store: the encoded form is a handle --------------
 
 var (
